@@ -174,3 +174,26 @@ func verifH_C10_helpers() {
 }
 
 var _ = time.Unix
+
+// the decimal question helper for numbers of every size, stated by their hexadecimal digits:
+// short of, exactly at and beyond the 128 bytes of the RFC 6287 question field (beyond: 309 and
+// more decimal digits)
+//
+//verif:harness prop=C10 name=question
+//verif:cases quick hexlen=1,255,256,257,300 declen=400
+//verif:cases thorough hexlen=1,2,127,128,255,256,257,258,300,332 declen=400
+//verif:opt unwind=600 unwind_is_violation=1 maxpaths=2000
+func verifH_C10_question() {
+	h := verifCase("hexlen")
+	x := verifBytes("hex", h)
+	for i, c := range x {
+		verifAssume(verifOr(verifAnd(c >= '0', c <= '9'), verifAnd(c >= 'a', c <= 'f')))
+		if i == 0 && h > 1 {
+			verifAssume(c != '0')
+		}
+	}
+	s := verifDecimalOf(x, verifCase("declen"))
+	pan := verifPanics(func() { _, _ = ParseDecimalChallengeRFC6287(s) })
+	verifObserve("panicked", pan)
+	verifAssert(!pan, "no-panic")
+}
